@@ -107,7 +107,14 @@ Clauses(o, ev, o2) ==
                             /\ Reusable(o, o.order[r.idx - 1]) /\ App(o, o.order[r.idx - 1]).ended > 0))
                     /\ Connected(o) /\ ~o.cerr /\ ~o.shut
                     /\ App(o, a).started = 0
-            IN (IF \E a \in DOMAIN o.apps : Incomplete(a) THEN <<F("body-incomplete", "")>> ELSE <<>>)
+                \* (HTTP/2: another stream's application has answered without taking all of its upload - the one
+                \*  reader of the connection may be parked on that queue: F06c)
+                Behind(a) == Req(o, a).ver = "2" /\ \E b \in DOMAIN o.apps :
+                                /\ b # a /\ Req(o, b).known /\ App(o, b).rstart /\ App(o, b).final
+                                /\ App(o, b).recvd < Req(o, b).body
+            IN (IF \E a \in DOMAIN o.apps : Incomplete(a) /\ ~Behind(a) THEN <<F("body-incomplete", "")>> ELSE <<>>)
+            \o (IF \E a \in DOMAIN o.apps : Incomplete(a) /\ Behind(a)
+                THEN <<F("body-incomplete", "sibling-answered-with-upload-unread")>> ELSE <<>>)
             \o (IF \E a \in DOMAIN o.reqs : Missing(a) THEN <<F("instance-missing", "")>> ELSE <<>>)
             \* HTTP/2: the client cannot complete the body because the server keeps back flow-control
             \* credit for data it has already consumed
